@@ -26,6 +26,7 @@ THEOREMS = [
     "CKT.C06.outcomeToInt_binary",
     "CKT.C06.outcomeToInt_hex",
 ]
+LEVEL_TEXT = ("implementation loop = estimator, V1 = V2, parity signs, key parsing; the estimator on an exact outcome distribution is a signed sum over the classical bits of the Pauli-expectation semantics (C06Sem), which C01Full/Sem.decode_full evaluate to expectation values; BitArray byte order modelled; model tied to the code by exact rational comparison")
 RULE = ("synthetic SamplerResult/PrimitiveResult data for 1-3 partitions, 1-4 observables, 1-12 bits per register, "
         "dyadic coefficients and quasi-probabilities (float arithmetic exact); non-trivial = at least one "
         "non-identity sub-observable and a non-constant outcome set; distinct by payload hash")
